@@ -51,9 +51,19 @@ def load() -> dict:
         if saved_attr is not None:
             bridge_env.network_bridge = saved_attr
     srv = mods['server']
-    if srv.Thread is not prims.Thread or srv.Event is not prims.Event or srv.Queue is not prims.Queue \
-            or srv.socket.socket is not prims.VSocket or mods['si'].socket.socket is not prims.VSocket:
-        raise prims.InternalError('the server module is not bound to the virtual primitives')
+    # however the network modules import their primitives (from threading import X / import threading / ...), none of the names they
+    # hold may be a REAL synchronisation, queue or socket primitive
+    import queue as _rq
+    import socket as _rs
+    import threading as _rt
+    real = {_rt.Thread, _rt.Event, _rt.Barrier, _rt.Condition, _rt.Semaphore, _rq.Queue, _rq.SimpleQueue, _rs.socket, _rt, _rq, _rs}
+    for mname in ('server', 'client', 'si'):
+        for k, v in vars(mods[mname]).items():
+            try:
+                if v in real:
+                    raise prims.InternalError(f'{mname}.{k} is bound to a real primitive ({v!r}), not to the virtual one')
+            except TypeError:
+                pass
     mods['client'].print = lambda *a, **k: None      # Client.run prints
     mods['orig_PlayerThread'] = srv.PlayerThread
     _V = mods
